@@ -67,6 +67,14 @@ pub fn main(reg: &'static [Entry]) {
 
     // panics are expected observations (catch_unwind); keep stderr quiet
     crate::drive::install_hook();
+    // whole-process watchdog: a hang (e.g. a generator loop that never ends) becomes exit 3, which the
+    // driver reports as INCONCLUSIVE (exit 2) — a time budget is never turned into a violation
+    let limit: u64 = get("--watchdog-secs").and_then(|s| s.parse().ok()).unwrap_or(if tier == Tier::Thorough { 6 * 3600 } else { 1200 });
+    std::thread::spawn(move || {
+        std::thread::sleep(std::time::Duration::from_secs(limit));
+        eprintln!("WATCHDOG: harness still running after {limit} s — giving up (inconclusive)");
+        std::process::exit(3);
+    });
     let t0 = std::time::Instant::now();
     let mut run = RunReport { prop: prop.clone(), tier: format!("{tier:?}").to_lowercase(), seed, ..Default::default() };
 
